@@ -291,6 +291,31 @@ theorem cnot_positions_characterised (d : DagView) (e e' : Edge) :
   · rintro ⟨⟨ha1, ha2⟩, ⟨hb1, hb2⟩, hb3⟩
     exact ⟨e, ⟨ha1, by simpa using ha2⟩, e', ⟨⟨hb1, by simpa using hb2⟩, by simpa using hb3⟩, rfl, rfl⟩
 
+/-! ## 5b. Transformation probabilities -/
+
+/-- **`adapt_probabilities` always yields a probability vector** with the same transformations in the same order, for
+    every `n_stop`, every number of emitters and every positive table; so do the initial tables of both solvers and the
+    table of `randomize_circuit`. -/
+theorem adapt_probabilities_is_distribution (nStop nEmitter : Nat) (p : TransProbs) (hp : IsDist p) :
+    IsDist (adaptProbabilities nStop nEmitter p) ∧ (adaptProbabilities nStop nEmitter p).map (·.1) = p.map (·.1) :=
+  adapt_isDist nStop nEmitter p hp.ne_nil hp.1
+
+theorem initial_tables_are_distributions (nEmitter : Nat) :
+    IsDist (initTransProbsEvo nEmitter) ∧ IsDist (initTransProbsHybrid nEmitter) ∧ IsDist (randomizeTransProbs nEmitter) :=
+  init_tables_isDist nEmitter
+
+/-- **In every generation of every run `np.random.choice` is handed a probability vector** over the same
+    transformations (adaptive probabilities on or off). -/
+theorem probabilities_stay_distribution (P : Params C D) (cfg : Cfg) (dr : Draws D) (fuel g : Nat) (s s' : St C)
+    (hd : IsDist s.transProbs) (hres : generations P cfg dr g fuel s = .ok s') :
+    IsDist s'.transProbs ∧ s'.transProbs.map (·.1) = s.transProbs.map (·.1) :=
+  generations_transProbs P cfg dr fuel g hd hres
+
+/-- `np.random.choice(len(p), p=p)` as a function of the uniform draw returns a valid index -/
+theorem choice_index_valid (p : List Rat) (u : Rat) (hne : p ≠ []) (hpos : 0 < sumQ p) (hu : u < 1) :
+    choiceIndex p u < p.length :=
+  choiceIndex_lt p u hne hpos hu
+
 /-! ## 6. Non-vacuity: concrete objects satisfying the hypotheses, and the refutation of the literal reading -/
 
 /-- toy instance: a "circuit" is a number, a transformation adds the draw, the metric is `1/(1 + c mod 4)`, the node
@@ -364,6 +389,13 @@ theorem reproducible_statement_needs_independence :
 /-- and it is satisfiable: a constant family is reproducible -/
 example : reproducible_statement (fun _ : Bool => exP) exCfg exDr (initTransProbsEvo 2) [5, 6, 7] :=
   reproducible_partial _ _ _ _ _ (fun _ _ => rfl)
+
+/-- the hypothesis `IsDist` is met by the solvers' own tables, and adaptation changes them (non-trivially) -/
+example : IsDist (initTransProbsEvo 2) ∧
+    (adaptProbabilities 10 2 (initTransProbsEvo 2)).map (·.2) = [13 / 60, 13 / 60, 7 / 20, 13 / 60] :=
+  ⟨(init_tables_isDist 2).1, by decide +kernel⟩
+
+example : choiceIndex [1 / 4, 1 / 4, 1 / 2] (1 / 2) = 2 := by decide +kernel
 
 /-- a hall of fame satisfying `HofInv` with real content (used by the hypotheses of §1): two entries pointing to two
     different heap objects with honest scores -/
